@@ -232,10 +232,15 @@ struct World
     return {line, static_cast<std::uint64_t>(static_cast<std::ptrdiff_t>(idx) - last_nl)};
   }
 
+  // stream offset of character index idx: the index itself, except for a wide file stream with a
+  // variable-width encoding, whose positions count bytes of the file
+  std::vector<std::size_t> byte_off;
+  std::size_t stream_off(std::size_t idx) const { return byte_off.empty() ? idx : byte_off[std::min(idx, byte_off.size() - 1)]; }
+
   void check_position(position_t const &p, std::size_t idx, std::string const &when)
   {
     std::streamoff const off = std::streamoff(p.pos());
-    SIM_CHECK(off == static_cast<std::streamoff>(idx), "offset", when + ": position offset " + std::to_string(off) + ", next unread character is at " + std::to_string(idx));
+    SIM_CHECK(off == static_cast<std::streamoff>(stream_off(idx)), "offset", when + ": position offset " + std::to_string(off) + ", next unread character (index " + std::to_string(idx) + ") is at " + std::to_string(stream_off(idx)));
     SIM_CHECK(p.location().has_value(), "location", when + ": position without location");
     auto const want = loc(idx);
     auto const &l = p.location().get_unsafe();
@@ -382,7 +387,7 @@ struct World
       {
         ok2 = false;
       }
-      SIM_CHECK(ok2 && static_cast<std::size_t>(std::streamoff(now->pos())) == target, "seek-failure-ignored", "set_position returned normally although the seek failed and the stream is not at the requested position");
+      SIM_CHECK(ok2 && static_cast<std::size_t>(std::streamoff(now->pos())) == stream_off(target), "seek-failure-ignored", "set_position returned normally although the seek failed and the stream is not at the requested position");
     }
     if (target < i)
     {
@@ -535,7 +540,7 @@ struct World
       ok = false;
     }
     SIM_CHECK(ok, "undocumented-exception", "get_position threw after a parse");
-    SIM_CHECK(static_cast<std::size_t>(std::streamoff(p->pos())) == ref_index, "offset", "after grammar " + std::to_string(g) + " the stream is at " + std::to_string(std::streamoff(p->pos())) + ", the reference at " + std::to_string(ref_index));
+    SIM_CHECK(static_cast<std::size_t>(std::streamoff(p->pos())) == stream_off(ref_index), "offset", "after grammar " + std::to_string(g) + " the stream is at " + std::to_string(std::streamoff(p->pos())) + ", the reference at " + std::to_string(stream_off(ref_index)) + " (character " + std::to_string(ref_index) + ")");
     i = ref_index;
     check_position(*p, i, "after grammar");
     ctx.probe(res.compare(0, 2, "S:") == 0 ? "grammar_success" : "grammar_failure");
@@ -556,7 +561,7 @@ struct World
     text = trunc >= 0 && static_cast<std::size_t>(trunc) < full.size() ? full.substr(0, static_cast<std::size_t>(trunc)) : full;
     if (text.size() != full.size())
       ctx.probe("truncated_file");
-    unsigned const backend = static_cast<unsigned>(plan.cfg.getu("backend") % 3);
+    unsigned const backend = static_cast<unsigned>(plan.cfg.getu("backend") % 4);
     std::size_t const chunk = plan.cfg.getu("chunk") % 9;
     std::string path;
     if (backend == 0)
@@ -566,12 +571,55 @@ struct World
         sb->visible(static_cast<std::size_t>(trunc));
       // half of the runs: a stream buffer without put-back support (seekable all the same)
       sb->putback(plan.cfg.get("pback", 1) != 0);
+      if (plan.cfg.get("pback", 1) == 0)
+        ctx.probe("stream_buffer_without_putback");
       is = std::make_unique<std::basic_istream<Ch>>(sb.get());
     }
     else if (backend == 1)
     {
       is = std::make_unique<std::basic_istringstream<Ch>>(text);
       ctx.probe("backend_stringbuf");
+    }
+    else if (backend == 3 && sizeof(Ch) > 1)
+    {
+      // a UTF-8 text file read through a wide file stream: stream positions count BYTES, so the
+      // offset of a character is not its index
+      path = scratch_file();
+      {
+        std::ofstream out(path, std::ios::binary | std::ios::trunc);
+        byte_off.clear();
+        std::size_t bytes = 0;
+        for (Ch c : text)
+        {
+          byte_off.push_back(bytes);
+          unsigned long const u = static_cast<unsigned long>(c);
+          if (u < 0x80)
+          {
+            out.put(static_cast<char>(u));
+            bytes += 1;
+          }
+          else if (u < 0x800)
+          {
+            out.put(static_cast<char>(0xC0 | (u >> 6)));
+            out.put(static_cast<char>(0x80 | (u & 0x3F)));
+            bytes += 2;
+          }
+          else
+          {
+            out.put(static_cast<char>(0xE0 | (u >> 12)));
+            out.put(static_cast<char>(0x80 | ((u >> 6) & 0x3F)));
+            out.put(static_cast<char>(0x80 | (u & 0x3F)));
+            bytes += 3;
+          }
+        }
+        byte_off.push_back(bytes);
+      }
+      auto f = std::make_unique<std::basic_ifstream<Ch>>();
+      static std::locale const utf8("C.utf8");
+      f->imbue(utf8);
+      f->open(path, std::ios::binary);
+      is = std::move(f);
+      ctx.probe("backend_wide_utf8_filebuf");
     }
     else
     {
@@ -628,8 +676,10 @@ void warmup() {}
 void generate(sim::Rng &rng, sim::Plan &p, bool thorough)
 {
   p.cfg.set("ch", static_cast<long>(rng.below(2)));
-  unsigned const b = static_cast<unsigned>(rng.below(10));
-  unsigned const backend = b < 7 ? 0 : (b < 9 ? 1 : 2);
+  unsigned const b = static_cast<unsigned>(rng.below(11));
+  // 0 simulated stream buffer, 1 stringbuf, 2 filebuf (one byte per character), 3 wide filebuf
+  // over a UTF-8 file (wchar_t only; a char stream takes the plain filebuf)
+  unsigned const backend = b < 7 ? 0 : (b < 9 ? 1 : (b < 10 || p.cfg.getu("ch") % 2 == 0 ? 2 : 3));
   p.cfg.set("backend", static_cast<long>(backend));
   static unsigned const chunks[] = {0, 1, 2, 3, 7, 1, 2};
   p.cfg.set("chunk", static_cast<long>(chunks[rng.below(7)]));
@@ -642,7 +692,7 @@ void generate(sim::Rng &rng, sim::Plan &p, bool thorough)
   {
     unsigned const r = static_cast<unsigned>(rng.below(6 + nl_weight));
     // rarely: carriage return, a character >= 0x80 (sign extension), NUL
-    if (backend != 2 && rng.chance(1, 25))
+    if (backend == 3 ? rng.chance(1, 4) : (backend != 2 && rng.chance(1, 25)))
       text.push_back("RXYZW"[rng.below(5)]);
     else
       text.push_back(r < 3 ? 'a' : r < 4 ? 'S' : r < 5 ? 'T' : 'N');
